@@ -29,6 +29,8 @@ type Identity struct {
 	Admin      bool   // signed-in user is an app administrator
 	OAuthEmail string // OAuth identity (agents, API callers)
 	OAuthAdmin bool
+	// OAuthNoEmail: a valid OAuth token whose user record carries an empty e-mail address
+	OAuthNoEmail bool
 }
 
 func Start() (*Rig, error) {
@@ -125,6 +127,8 @@ func (r *Rig) Do(svc, method, uri string, hdr http.Header, body []byte, id Ident
 	ticket := "none"
 	if id.OAuthEmail != "" {
 		ticket = fakeae.Ticket(id.OAuthEmail, id.OAuthAdmin)
+	} else if id.OAuthNoEmail {
+		ticket = fakeae.TicketNoEmail
 	}
 	req.Header.Set("X-AppEngine-API-Ticket", ticket)
 	rid := r.NewRequestID()
